@@ -31,7 +31,7 @@ macro_rules! props {
 /// Replay tier: every saved regression input of the property (minimal failing cases of defects found
 /// earlier, of seeded breakages, fuzzer artefacts) is re-run first, through the plain interpreter.
 fn regress(id: &str, ctx: &Ctx, f: fn(&Ctx, &Value)) {
-    let dir = format!("{}/regress/{}", crate::engine::VERIF_DIR, id);
+    let dir = format!("{}/regress/{}", crate::engine::verif_dir(), id);
     let mut files: Vec<_> = match std::fs::read_dir(&dir) {
         Ok(d) => d.filter_map(|e| e.ok()).map(|e| e.path()).filter(|p| p.extension().map(|x| x == "json").unwrap_or(false)).collect(),
         Err(_) => return,
